@@ -471,7 +471,7 @@ func judge(res *histResult, b *vlib.Batch, build string) {
 			evs = evs[:600]
 		}
 		for _, f := range fs {
-			b.Violation(f.Sig, f.What, map[string]any{"hist": h, "findings": fs, "events": evs, "build": build, "quiescent": res.Quiescent, "stopped_online": res.Aborted, "partial_log_after_watchdog": res.Partial})
+			b.Violation(f.Sig, f.What, map[string]any{"hist": h, "findings": fs, "events": evs, "build": build, "quiescent": res.Quiescent, "stopped_online": res.Aborted, "notes": res.Notes, "partial_log_after_watchdog": res.Partial})
 		}
 	} else if nexec >= 2 {
 		b.Sample(map[string]any{"class": h.Class, "plan": h.Plan, "tasks": len(h.Tasks), "executions": nexec, "events": len(res.Events), "starts": startOrder(v)})
